@@ -3,6 +3,7 @@
 //! Re-exports of internal pure functions so that an external harness can run
 //! them directly. Nothing here changes the behaviour of the library.
 
+pub use crate::compression::{compress, decompress};
 pub use crate::varint::{varint_decode32, varint_encode32, varint_length_packed};
 
 /// FNV-1a 64-bit hash, used to fingerprint loaded blocks.
